@@ -59,7 +59,7 @@ class SortedV(V):
         self.items = list(items)
 
     def key(self):
-        return ("sorted", tuple(sorted((repr(i.key()) for i in self.items))))
+        return ("sorted", tuple(sorted((i.key() for i in self.items), key=repr)))
 
     def __repr__(self):
         return "sorted%r" % (self.items,)
@@ -247,9 +247,9 @@ class SeqV(V):
         if self.kind == "opaque":
             return ("seq", self.path)
         if self.kind == "family":
-            return ("family", self.var, self.lo, self.hi, self.elem.key())
+            return ("family", self.lo, self.hi, ep._subst_key(self.elem.key(), {self.var: ep.sym("@v")}))
         if self.kind == "seqmap":
-            return ("seqmap", self.var, self.seq.key(), self.elem.key())
+            return ("seqmap", self.seq.key(), ep._subst_key(self.elem.key(), {self.var: ep.sym("@v")}))
         return ("concat",) + tuple(p.key() for p in self.parts)
 
     def __repr__(self):
